@@ -142,10 +142,10 @@ def _generate(ctx, quick):
             # cases that have to wait (heartbeats, event debounce) next to each other: a child runs a group side by side
             live.sort(key=lambda c: (c["pos"] not in LIVE_WAITS, c["pos"], c["cfg"], c["variant"]))
             # once: only the first request at the position gets the frame, the session then goes on
-            # with a node that follows the protocol (quick: a seeded quarter of the cases, thorough: all)
+            # with a node that follows the protocol (quick: a seeded eighth of the cases, thorough: all)
             for once in (False, True):
                 for n, c in enumerate(live):
-                    if once and quick and (n + ctx.seed) % 4 != 0:
+                    if once and quick and (n + ctx.seed) % 8 != 0:
                         continue
                     b = c["bytes"]
                     lab = {k: v for k, v in c.items() if k != "bytes"}
